@@ -11,7 +11,7 @@ import (
 // C11 — the queue limiter serves waiters in the configured order.
 func init() {
 	Register(&Prop{
-		ID: "C11", Bubble: true, Run: runC11, QuickRuns: 1500,
+		ID: "C11", Bubble: true, Run: runC11, QuickRuns: 2500,
 		ExpectedProbes: []string{"release_with_two_or_more_waiting", "release_checked", "late_caller_barged_in", "release_with_concurrent_arrival", "partitioned_release_with_two_or_more_waiting", "partitioned_head_refused_nobody_served", "overlapping_releases_checked", "overlapping_releases_with_barging"},
 		Rule: "one run = one way of constructing a queue limiter (FromConfig with FIFO / LIFO / empty ordering, WithDefaults, the deprecated Lifo/Fifo constructors with and without defaults, FixedPool and Pool with FIFO/LIFO), limit 1..2, 2..6 waiters whose arrival order is fixed by running each arrival to a stable point, then a seeded sequence of releases, backlog timeouts (distinct arrival instants on the virtual clock) and cancellations; " +
 			"oracle: after each release the caller that returns granted is the oldest (FIFO) / newest (LIFO) among those still waiting in a reference list; " +
